@@ -77,18 +77,21 @@ ring_add(struct ring *r, struct ovni_ev *ev)
 		r->head = 0;
 }
 
-static void
+static int
 ring_check(struct ring *r, long long start)
 {
 	uint64_t last_clock = 0;
 	for (long long i = start; i != r->tail; i = (i + 1) % r->size) {
 		uint64_t clock = r->ev[i]->header.clock;
 		if (clock < last_clock) {
-			die("ring not sorted at i=%lld, last_clock=%"PRIu64" clock=%"PRIu64 ,
+			err("ring not sorted at i=%lld, last_clock=%"PRIu64" clock=%"PRIu64 ,
 					i, last_clock, clock);
+			return -1;
 		}
 		last_clock = clock;
 	}
+
+	return 0;
 }
 
 static ssize_t
@@ -383,7 +386,10 @@ execute_sort_plan(struct sortplan *sp)
 
 	/* Invariant: The ring buffer is always sorted here. Check from the
 	 * dirty position onwards, so we avoid scanning all events. */
-	ring_check(sp->r, dirty);
+	if (ring_check(sp->r, dirty) != 0) {
+		err("events out of order outside the unsorted regions");
+		return -1;
+	}
 
 	return 0;
 }
